@@ -257,6 +257,35 @@ func TestDatagramLinesIndependent(t *testing.T) {
 			fail("C05:aliases-buffer-or-pool", "data dispatched for the first datagram changed after a second datagram was parsed and the buffers were overwritten:\nbefore %s %s\nafter  %s %s", snapMaps, snapEvents, describeAll(rawMaps), describeEvents(rawEvents))
 		}
 
+		// third datagram: it arrives in the very memory the second one occupied (a receive buffer taken from the pool
+		// again), has the same line structure and lengths, and different names. Whatever the parser remembers about the
+		// second datagram's bytes now reads the third one's.
+		var third []seg
+		var t3 []string
+		for _, sg := range second {
+			if sg.text == "" {
+				third = append(third, seg{kind: "empty"})
+				t3 = append(t3, "")
+				continue
+			}
+			x := renameLine(sg.text)
+			third = append(third, seg{text: x, kind: "piece"})
+			t3 = append(t3, x)
+		}
+		text3 := strings.Join(t3, "\n")
+		if len(text3) == len(text2) && text3 != text2 {
+			copy(buf2, text3)
+			before3, beforeE3 := r.Sink.Counts()
+			m2b, e2b, b2b := r.Counters()
+			start3 := time.Now().Unix()
+			if p := r.Feed([]*statsd.Datagram{{IP: "9.9.9.9", Msg: buf2, Timestamp: gostatsd.Nanotime(ts + 2), DoneFunc: func() {}}}); p != "" {
+				vt.Fail(t, "C05:parser-panic", "parser failed on third datagram %q: %s", text3, p)
+			}
+			maps3, events3 := r.Sink.Snapshot()
+			m3, e3, b3 := r.Counters()
+			checkDatagram(t, "third (in the memory of the second, "+strconv.Quote(text2)+")", third, text3, ns, ignoreHost, "9.9.9.9", ts+2, start3, maps3[before3:], events3[beforeE3:], m3-m2b, e3-e2b, b3-b2b)
+		}
+
 		// evidence
 		nt := false
 		gauges := map[string]int{}
@@ -437,4 +466,18 @@ func checkDatagram(t vt.TB, which string, segs []seg, datagram, ns string, ignor
 	}
 
 	return allKnown
+}
+
+// renameLine changes the letters of a line's name (the bytes before its first ':') and keeps every length.
+func renameLine(line string) string {
+	b := []byte(line)
+	for i := 0; i < len(b) && b[i] != ':'; i++ {
+		switch {
+		case b[i] >= 'a' && b[i] < 'z':
+			b[i]++
+		case b[i] == 'z':
+			b[i] = 'a'
+		}
+	}
+	return string(b)
 }
